@@ -111,6 +111,9 @@ def _case_body(ex, stmt, case, st):
     ci = ex.repo.cls("RowSequence")
     it = SV(TRefT(ci), smt.fresh_const("sorted_rows", smt.Ref), fresh=True)
     st.assume(it.z != smt.NONE, smt.typ(it.z) == ex.types.cid(ci), V.content(it.z) == V.s_sort(terms.z, V.content(rows.z)))
+    # list(target_rows) iterates its argument: the ghost iteration counters (C18) change in an unspecified way
+    st.heap = dict(st.heap)
+    st.heap["RowIterable.iterations"] = z3.Const(smt.fresh_name("H_RowIterable.iterations"), z3.ArraySort(smt.Ref, smt.IntS))
     ex.assumed_contracts_used.add("summary: Sort arm of iteration.Engine.execute == stable multi-key sort (bounded stand-in replay/bounded_rowiter.py)")
     return [Res("return", it, st, node=case.body[-1])]
 
